@@ -7,7 +7,7 @@ CFG = {'module': 'Dnp3.Props.C01',
          'Variations.lean',
          'Qualifiers.lean',
          'AppCodes.lean'],
- 'engines': ['rawbytes', 'parse', 'outstation', 'outstationdb', 'db', 'master', 'pairtcp'],
+ 'engines': ['rawbytes', 'parse', 'file70', 'outstation', 'outstationdb', 'db', 'master', 'pairtcp'],
  'monitors': ['no_panic', 'no_stall', 'keeps_serving'],
  'rule': 'engine rawbytes (SEARCH ONLY, no Lean-model counterpart: nothing is diffed, the three monitors '
          'decide): the REAL OutstationTask (link layer, transport, parser, session, database) over an '
@@ -97,6 +97,7 @@ CFG = {'module': 'Dnp3.Props.C01',
                'master: no_panic / no_spin), no master no-panic theorem',
  'engine_monitors': {'master': ['no_panic', 'no_spin'],
                      'db': ['no_panic'],
+                     'file70': ['no_panic'],
                      'parse': ['no_panic'],
                      'outstation': ['no_panic', 'no_stall'],
                      'outstationdb': ['no_panic', 'no_stall', 'series_makes_progress'],
